@@ -749,7 +749,7 @@ def model_sigs(headers):
         lst = lib.clist([sparam_term(p) for p in ps if p is not None])
         f = "(map (fun s => (s_name s, s_kind s, (s_default s, s_type s))) "
         r = "None" if ret is None else f"(Some {coq_expr(ret)})"
-        terms.append(f"({f}(map norm_sparam (sig_from_def {lst}))), {f}(map norm_sparam (sig_from_runtime {lst}))), (ret_from_def {r}, ret_from_runtime {r}))")
+        terms.append(f"({f}(sig_from_def {lst})), {f}(sig_from_runtime {lst})), (ret_from_def {r}, ret_from_runtime {r}))")
     vals = lib.coq_eval(HEADER, terms, name="c13s", jobs=6)
     out = []
     for d, r, (rd, rr) in vals:
